@@ -488,6 +488,32 @@ def r7_stale_handle(rule, root=None):
             rule.bad("%s|zoom|stale-handle" % ty, "%s::zoom changes the view's scale but leaves a stored pan handle untouched; the handle caches the pre-zoom matrix (TranslateHandle.%s), so the next drag step no longer keeps the grabbed point under the cursor" % (ty, cached[0]), A.where(fn))
 
 
+def r_components_roundtrip(rule, root=None):
+    """`components()` and `from_components(..)` are inverse: the tuple lists the fields in the order the constructor
+    takes them (yaw before pitch), so a view rebuilt from its own components is the same view and its matrix is
+    translate x rotate x scale of what `components()` reports"""
+    d = A.load(GUI, root)
+    n = 0
+    for ty in ("View2", "View3", "Canvas2", "Canvas3"):
+        comp = [f for f in d["_fns"] if f["name"] == "components" and (f.get("_owner") or {}).get("self_ty") == ty and not f["_test"]]
+        frm = [f for f in d["_fns"] if f["name"] == "from_components" and (f.get("_owner") or {}).get("self_ty") == ty and not f["_test"]]
+        if not comp or not frm:
+            continue
+        params = [A.binding_name(i_["pat"]) for i_ in frm[0]["sig"]["inputs"] if isinstance(i_, dict) and "pat" in i_]
+        tl = A.strip(A.stmt_expr(A.stmts_of(comp[0]["body"])[-1]) or {})
+        if tl.get("k") != "Tuple":
+            rule.skip("%s::components" % ty, "its value is not a tuple literal", count=True)
+            continue
+        got = [str(A.ftxt(A.strip(e_))).replace("self.", "").replace(".clone()", "") for e_ in tl["elems"]]
+        n += 1
+        if got == params:
+            rule.ok("%s::components lists (%s), the order from_components takes them" % (ty, ", ".join(params)), file=GUI, line=comp[0]["ln"])
+        else:
+            rule.bad("%s|components" % ty, "%s::components returns (%s) but from_components takes (%s): a view rebuilt from its own components differs, and the matrix is no longer translate x rotate x scale of the reported components" % (ty, ", ".join(got), ", ".join(params)), A.where(GUI, comp[0]))
+    if n == 0:
+        rule.lost("components() / from_components() pairs in fidget-gui")
+
+
 def run(ctx):
     r = ctx.rule("R1", "world_to_model = translate x rotate x scale of the view's own components", 9)
     ctx.guarded(r, r1_matrix)
@@ -503,3 +529,5 @@ def run(ctx):
     ctx.guarded(r, r6_canvases)
     r = ctx.rule("R7", "zooming during a pan refreshes the handle's cached matrix", 4)
     ctx.guarded(r, r7_stale_handle)
+    r = ctx.rule("R8", "components() lists the fields in the order from_components() takes them (the two are inverse)", 4)
+    ctx.guarded(r, r_components_roundtrip)
